@@ -20,13 +20,14 @@ RULE = ("hierarchies of depth 1-3 in a private directory: firmware files of size
         "image size under the five algorithms; integrated payloads by relative / absolute path with names containing "
         "spaces, non-ASCII and hex look-alikes that are unambiguous paths (deadbeef.bin, ./cafe, /abs/.../abcdef); "
         "bare all-hex names for file/file_direct/envelope references; dependencies inline and by path with parent "
-        "algorithm != child algorithm; outputs of `encrypt` fed as file_direct. distinct = digest of the created "
+        "algorithm != child algorithm; outputs of `encrypt` fed as file_direct; a quarter of the cases are built and then "
+        "REBUILT in the same process with the same paths and file sizes but other file contents. distinct = digest of the created "
         "bytes; non-trivial = >= 2 external references or a dependency")
 MIN_DISTINCT = {"quick": 300, "thorough": 3000}
 ASSUMPTIONS = ["reference encoder + hashlib; the reader serves the bytes the harness wrote",
                "a bare all-hex, even-length token as integrated-payload VALUE is a hex literal by the language's own "
                "precedence (recorded as hex_lookalike_literal, no verdict)"]
-N = {"quick": 3000, "thorough": 80000}
+N = {"quick": 2400, "thorough": 80000}
 CAP = {"quick": 30, "thorough": 800}
 SIZES = [0, 1, 23, 24, 255, 256, 4095, 4096, 4097, 8192, 65535, 65536, 65537, 100000, 131072, 131073, 200001]
 FNAMES = ["fw.bin", "with space.bin", "ünï côdé.bin", "deadbeef.bin", "./cafe", "abcdef", "deadbeef", "00", "1234.5678",
@@ -59,7 +60,9 @@ class World:
         return self.files[os.path.normpath(p)]
 
 
-def rdata(r, tier):
+def rdata(r, tier, rd=None):
+    """size and shape from the structure generator r, contents from rd (a rebuild keeps r and changes rd: the same
+    paths and sizes with other bytes)"""
     c = r.random()
     if c < 0.6:
         n = r.choice(SIZES)
@@ -67,13 +70,13 @@ def rdata(r, tier):
         n = r.randrange(0, 5000)
     else:
         n = 1 << 20
-    b = r.randbytes(n)
+    b = (rd or r).randbytes(n)
     if n > 4 and r.random() < 0.3:
         b = b"\r\n\x1a\xff\xfe" + b[5:]     # bytes a text-mode read would mangle or refuse
     return b
 
 
-def build_node(rec, r, w, depth, maxdepth, uniq, counters):
+def build_node(rec, r, w, depth, maxdepth, uniq, counters, rd=None):
     """returns (description, file reference of the created child or None)"""
     d = G.envelope(r, cwt=False, maxdep=0, p_dep=0.0, uniq=uniq)
     e = d["SUIT_Envelope_Tagged"]
@@ -81,7 +84,7 @@ def build_node(rec, r, w, depth, maxdepth, uniq, counters):
     seq = []
     # ---- firmware file references ---------------------------------------------------------------------
     for i in range(r.randrange(1, 4)):
-        data = rdata(r, rec.tier)
+        data = rdata(r, rec.tier, rd)
         name = f"{uniq}{i}_" + r.choice(FNAMES)
         if name.startswith(f"{uniq}{i}_./"):
             name = "./" + name.replace("./", "", 1)
@@ -123,7 +126,7 @@ def build_node(rec, r, w, depth, maxdepth, uniq, counters):
     # ---- dependencies -----------------------------------------------------------------------------------
     if depth < maxdepth:
         for i in range(r.randrange(1, 3)):
-            child_desc, _ = build_node(rec, r, w, depth + 1, maxdepth, uniq + str(i), counters)
+            child_desc, _ = build_node(rec, r, w, depth + 1, maxdepth, uniq + str(i), counters, rd)
             if child_desc is None:
                 return None, None
             alg = r.choice(G.HASHES)
@@ -212,19 +215,35 @@ def dependency_clauses(data, desc, w, path="$"):
 
 
 def run_case(rec, case):
-    r = common.case_rng(case["seed"], ID, case["n"])
+    """one case = one build, or (a quarter of the cases) a build followed by a REBUILD in the same process: the same
+    description, the same paths and file sizes, other file contents - what a firmware rebuild looks like to the tool"""
     root = os.path.join(rec.tmpdir(), f"case{case['n']}")
-    w = World(root)
-    counters = _Counter()
+    rebuild = case.get("rebuild")
+    if rebuild is None:
+        rebuild = common.case_rng(case["seed"], ID + "/rebuild", case["n"]).random() < 0.25
     cwd = os.getcwd()
     try:
+        for pno in range(2 if rebuild else 1):
+            if not one_build(rec, dict(case, rebuild=rebuild), root, pno):
+                break
+    finally:
+        os.chdir(cwd)
+        shutil.rmtree(root, ignore_errors=True)
+
+
+def one_build(rec, case, root, pno):
+    r = common.case_rng(case["seed"], ID, case["n"])
+    rd = common.case_rng(case["seed"], ID + f"/contents{pno}", case["n"])
+    w = World(root)
+    counters = _Counter()
+    if True:
         os.chdir(root)
         if case["kind"] == "encrypt-outputs":
-            desc = encrypt_case(rec, r, w, counters)
+            desc = encrypt_case(rec, r, w, counters, rd)
         else:
-            desc, _ = build_node(rec, r, w, 0, case.get("maxdepth", r.choice([0, 1, 2, 2])), "n", counters)
+            desc, _ = build_node(rec, r, w, 0, case.get("maxdepth", r.choice([0, 1, 2, 2])), "n", counters, rd)
         if desc is None:
-            return
+            return False
         route = case.get("route") or drive.pick_route(r, p_sub=0.01 if rec.tier == "quick" else 0.003)
         fmt = r.choice(["json", "yaml"])
         src = os.path.join(root, "top." + fmt)
@@ -240,16 +259,17 @@ def run_case(rec, case):
             rec.count(k)
         rec.count("route:" + route)
         rec.count("kind:" + case["kind"])
-        full = dict(case, route=route, fmt=fmt, desc=desc,
+        if pno:
+            rec.count("rebuild-same-paths-and-sizes-other-contents")
+        full = dict(case, route=route, fmt=fmt, desc=desc, build=pno,
                     files={k[len(root) + 1:]: v.hex() for k, v in w.files.items() if len(v) <= 4096})
         if not out.ok:
             rec.violation("file-create-refused", f"create refused a description with file references: "
                           f"{common.exc_text(out.exc)}", full)
-            return
+            return False
         data = out.value
-        nrefs = sum(1 for k in counters.items if k.startswith(("digest-form", "size-form", "payload-by-path")))
         rec.case(data, len(counters.items) >= 4 or any(k.startswith("dependency") for k in counters.items),
-                 sample={"kind": case["kind"], "route": route, "fmt": fmt, "files": sorted(
+                 sample={"kind": case["kind"], "route": route, "fmt": fmt, "build": pno, "files": sorted(
                      k[len(root) + 1:] for k in w.files)[:8], "references": sorted(set(counters.items))[:10],
                      "envelope_len": len(data)})
         try:
@@ -263,13 +283,12 @@ def run_case(rec, case):
             except mcbor.CBORError as ex:
                 where = str(ex)
             kind = "digest" if "[3]" in where else "size" if "[14]" in where else "content"
-            rec.violation("file-reference-" + kind, f"created envelope differs from the reference computed from the "
-                          f"file bytes at {where}", full, observed=data, expected=ref)
+            rec.violation("file-reference-" + kind, ("rebuild (same paths and sizes, other contents): " if pno else "")
+                          + f"created envelope differs from the reference computed from the file bytes at {where}",
+                          full, observed=data, expected=ref)
         for mech, text in dependency_clauses(data, desc, w):
             rec.violation(mech, text, full)
-    finally:
-        os.chdir(cwd)
-        shutil.rmtree(root, ignore_errors=True)
+    return True
 
 
 class _Counter:
@@ -280,16 +299,16 @@ class _Counter:
         self.items.append(k)
 
 
-def encrypt_case(rec, r, w, counters):
+def encrypt_case(rec, r, w, counters, rd=None):
     """plain_text_digest.bin / plain_text_size.txt written by `encrypt` are fed back as file_direct"""
-    pt = rdata(r, rec.tier)[:70000]
+    pt = rdata(r, rec.tier, rd)[:70000]
     key = r.randbytes(32)
     keysdir = os.path.join(w.root, "keys")
     X.make_key(keysdir, "k", key)
     fw = w.add("plain.bin", pt)
     alg = r.choice(list(X.HASH))
     outdir = os.path.join(w.root, "enc")
-    os.makedirs(outdir)
+    os.makedirs(outdir, exist_ok=True)
     exc = X.run_encrypt("cmd", os.path.join(w.root, "plain.bin"), "k", r.choice(X.KIDS), keysdir, outdir, alg, w.root)
     if exc is not None:
         rec.count("encrypt_failed")
@@ -361,7 +380,8 @@ def finish(merged, tier, seed):
     cnt = merged["counters"]
     need = ["digest-form:file", "digest-form:file_direct", "digest-form:envelope", "digest-form:raw", "size-form:file",
             "size-form:file_direct", "size-form:envelope", "size-form:raw", "dependency:by-path", "dependency:inline",
-            "payload-by-path", "bare-hex-file-name", "encrypt-outputs-as-file_direct", "file-size:0", "file-size:65536", "file-size:65537", "file-size:200001"] \
+            "payload-by-path", "bare-hex-file-name", "encrypt-outputs-as-file_direct",
+            "rebuild-same-paths-and-sizes-other-contents", "file-size:0", "file-size:65536", "file-size:65537", "file-size:200001"] \
         + ["digest-alg:" + a for a in G.HASHES]
     for k in need:
         if cnt.get(k, 0) < 3:
